@@ -1180,7 +1180,8 @@ where
     T: Storable,
 {
     fn eq(&self, other: &Self) -> bool {
-        self.handle() == other.handle()
+        //handles are only unique within the store that holds the item (keys and data in different sets, text selections in different resources)
+        self.handle() == other.handle() && std::ptr::eq(self.store, other.store)
     }
 }
 impl<'store, T> Eq for ResultItem<'store, T> where T: Storable {}
@@ -1197,7 +1198,7 @@ where
     T: Storable,
 {
     fn partial_cmp(&self, other: &Self) -> Option<Ordering> {
-        Some(self.handle().cmp(&other.handle()))
+        Some(self.cmp(other))
     }
 }
 impl<'store, T> Ord for ResultItem<'store, T>
@@ -1205,7 +1206,10 @@ where
     T: Storable,
 {
     fn cmp(&self, other: &Self) -> Ordering {
-        self.handle().cmp(&other.handle())
+        //first by the store that holds the item (sets and resources are laid out in handle order), then by handle
+        (self.store as *const T::StoreType)
+            .cmp(&(other.store as *const T::StoreType))
+            .then_with(|| self.handle().cmp(&other.handle()))
     }
 }
 
